@@ -35,15 +35,46 @@ def run(chk):
     base += synth.make_sequence_frames(rng, 40 if thorough else 16) + synth.make_rle_repeat_frames(rng, 10 if thorough else 4)
     base += [f for f in framegen.make_ruzstd_frames(rng, 12 if thorough else 5, 'small') if f.get('frame')]
     good = base[0]['frame']
+    # frames whose first block has Huffman-compressed literals: decoded first on half of the cases, so that the
+    # malformed input meets a decoder that holds tables from an earlier frame
+    warm = [f['frame'] for f in base if f.get('producer') == 'libzstd' and len(f['content']) > 300 and
+            (lambda w: w and any(x[2] == 2 and mutate.lit_section(f['frame'], x[0]) for x in w[1][:1]))(framegen.walk_blocks(f['frame']))][:6]
     cases, lines = [], []
     per = 14 if thorough else 7
+
+    def add(m, label):
+        prog = entry_program(rng)
+        pre = ''
+        if warm and rng.below(2) == 0 and not prog.startswith(('SI', 'A', 'Zf', 'F')):
+            pre = 'src=%s I Ba C ' % hexs(rng.choice(warm))
+            label += '+used'
+        elif warm and prog.startswith('A') and rng.below(2) == 0:
+            m = rng.choice(warm) + m
+            label += '+second-frame'
+        # after the (likely) error: the same decoder must still work on a good frame
+        cases.append(label)
+        lines.append('%ssrc=%s %s src=%s I Ba C' % (pre, hexs(m), prog, hexs(good)))
+
     for f in base:
         for _ in range(per):
-            m, label = mutate.corrupt(rng, f['frame'])
-            prog = entry_program(rng)
-            # after the (likely) error: the same decoder must still work on a good frame
-            cases.append(label)
-            lines.append('src=%s %s src=%s I Ba C' % (hexs(m), prog, hexs(good)))
+            add(*mutate.corrupt(rng, f['frame']))
+    for m, label in mutate.tiny_huffman_frames(rng, 400 if thorough else 150):
+        add(m, label)
+    # a frame whose FIRST block claims to reuse a Huffman table (treeless) right after a frame that left one behind
+    for f in base:
+        w = framegen.walk_blocks(f['frame'])
+        if not (warm and w and w[1] and w[1][0][2] == 2):
+            continue
+        ls = mutate.lit_section(f['frame'], w[1][0][0])
+        if not ls or ls['type'] != 2:
+            continue
+        b = bytearray(f['frame'])
+        b[w[1][0][0] + 3] |= 3
+        for wf in warm[:3]:
+            cases.append('treeless-first+used')
+            lines.append('src=%s I Ba C src=%s I B?a C src=%s I Ba C' % (hexs(wf), hexs(bytes(b)), hexs(good)))
+            cases.append('treeless-first+second-frame')
+            lines.append('src=%s A1000000 src=%s I Ba C' % (hexs(wf + bytes(b)), hexs(good)))
     for _ in range(300 if thorough else 100):
         n = rng.choice([0, 1, 3, 4, 5, 9, 20, 100, 1000])
         head = rng.choice([b'', b'\x28\xb5\x2f\xfd', b'\x28\xb5\x2f\xfd\x00\x00', b'\x50\x2a\x4d\x18'])
